@@ -56,7 +56,31 @@ def big_cases():
     return _BIG
 
 
+def _narrow_cases():
+    """Polyhedra STORED in a narrow integer type (int8 / int16): every entry fits, but substituting a forced column (b - a*value) or a
+    row sum leaves the type's range.  x in (0,v) is forced to v by the first row; the second row carries a on x and c on two booleans."""
+    out = []
+    for dt, v, c in ((np.int8, 100, 120), (np.int16, 32000, 32000), (np.int8, 50, 100)):
+        for a in (-3, -2, 2, 3):
+            for cc in (c, -c):
+                for b2 in (20, 0, -20):
+                    out.append((np.array([[v, 1, 0, 0], [b2, a, cc, cc]], dtype=dt), [(0, v), (0, 1), (0, 1)]))
+                    out.append((np.array([[b2, a, cc, cc], [v, 1, 0, 0]], dtype=dt), [(0, v), (0, 1), (0, 1)]))
+    return out
+
+
+_NARROW = []
+
+
+def narrow_cases():
+    if not _NARROW:
+        _NARROW.extend(_narrow_cases())
+    return _NARROW
+
+
 def size(name):
+    if name == "narrow":
+        return len(narrow_cases())
     if name == "big":
         return len(big_cases())
     r, c, ca, ba, bm = SPACES[name]
@@ -65,6 +89,9 @@ def size(name):
 
 def case_at(name, idx):
     """Decode index -> (M, bounds): M is the (r, c+1) int matrix [b|A]."""
+    if name == "narrow":
+        M, bds = narrow_cases()[idx]
+        return M.copy(), list(bds)
     if name == "big":
         M, bds = big_cases()[idx]
         return M.copy(), list(bds)
@@ -99,7 +126,7 @@ def polyhedron(M, bds, layout=0):
         data = big[:, ::2]
     else:
         data = M.copy()
-    return pnd.ge_polyhedron(data, variables=variables, index=index)
+    return pnd.ge_polyhedron(data, variables=variables, index=index, dtype=M.dtype)      # stored in the type the matrix comes in (int64 unless a space says otherwise)
 
 
 def shards_for(names, per_shard):
